@@ -50,10 +50,309 @@ fn quorum(o: &Opts) {
     e.finish(&o.out, "quorum", o.seed);
 }
 
+// ---------------------------------------------------------------- C09: LeaderElector
+fn leader(o: &Opts) {
+    use consensus::verif::LeaderElector;
+    let mut e = Emit::new("Guards LeaderDefs CorrComp");
+    let mut seen = std::collections::HashSet::new();
+    for k in 0..o.cases {
+        if let Some(only) = o.only { if only != k { continue; } }
+        let mut rng = case_rng(o.seed, 9, k as u64);
+        let n = rng.gen_range(1, 11usize);
+        let mut keys: Vec<crypto::PublicKey> = (0..n).map(|_| crypto::generate_keypair(&mut rng).0).collect();
+        // insertion order is random (the model is given the keys in this order and sorts them itself)
+        use rand::seq::SliceRandom; keys.shuffle(&mut rng);
+        let com = consensus::Committee::new(keys.iter().enumerate().map(|(i, pk)| (*pk, 1 + (i as u32 % 3), addr(i))).collect(), 1);
+        let el = LeaderElector::new(com);
+        let base: u64 = match k % 4 { 0 => 0, 1 => rng.gen_range(0, 1000), 2 => rng.gen_range(0, u32::MAX as u64), _ => u64::MAX - 30 - rng.gen_range(0, 50) };
+        let rounds: Vec<u64> = (0..(2 * n as u64 + 1)).map(|i| base.wrapping_add(i)).collect();
+        let leaders: Vec<crypto::PublicKey> = rounds.iter().map(|&r| el.get_leader(r)).collect();
+        e.stat(&format!("n={}", n), 1);
+        if n > 1 && seen.insert(keys.iter().map(|k| k.0.to_vec()).collect::<Vec<_>>()) { e.stat("distinct_nontrivial", 1); }
+        let kl = coq_list(&keys.iter().map(|k| coq_bytes(&k.0)).collect::<Vec<_>>());
+        let rl = coq_nlist(rounds.iter().map(|&r| r as u128));
+        let ll = coq_list(&leaders.iter().map(|k| coq_bytes(&k.0)).collect::<Vec<_>>());
+        e.case(k, "", &format!("leader_case {} {} {}", kl, rl, ll), json!({"case": k, "n": n, "base_round": base}));
+    }
+    e.finish(&o.out, "leader", o.seed);
+}
+
+// ---------------------------------------------------------------- C19: Aggregator
+fn aggregator(o: &Opts) {
+    use consensus::verif::{Aggregator, Timeout, Vote, QC};
+    use crypto::{Digest, Signature};
+    let mut e = Emit::new("GTac Node CorrComp CorrAgg");
+    let mut seen = std::collections::HashSet::new();
+    for k in 0..o.cases {
+        if let Some(only) = o.only { if only != k { continue; } }
+        let mut rng = case_rng(o.seed, 19, k as u64);
+        let n = rng.gen_range(1, 9usize);
+        let stakes: Vec<u32> = if k % 2 == 0 { vec![1; n] } else { (0..n).map(|_| rng.gen_range(0, 5)).collect() };
+        let stakes: Vec<u32> = if stakes.iter().all(|&x| x == 0) { vec![1; n] } else { stakes };
+        let keys = sorted_keys(&mut rng, n + 1); // last = outsider
+        let com = consensus::Committee::new((0..n).map(|i| (keys[i].0, stakes[i], addr(i))).collect(), 1);
+        let mut agg = Aggregator::new(com);
+        let digs: Vec<Digest> = (1..4u8).map(|x| Digest([x; 32])).collect();
+        let mut ops: Vec<String> = vec![]; let mut res: Vec<String> = vec![]; let mut human: Vec<String> = vec![];
+        let mut sigtab: std::collections::HashMap<Vec<u8>, usize> = std::collections::HashMap::new();
+        let nops = rng.gen_range(3, 30);
+        let mut made = 0;
+        for i in 0..nops {
+            let a = rng.gen_range(0, n + 1); let aid = if a == n { 99 } else { a };
+            let sig = Signature::new(&Digest([(i % 250) as u8 + 1; 32]), &keys[a].1);
+            sigtab.insert(bincode::serialize(&sig).unwrap(), i);
+            let x: f64 = rng.gen();
+            if x < 0.6 {
+                let round = rng.gen_range(1, 4u64); let h = rng.gen_range(0, if k % 3 == 0 { 1 } else { 3 });
+                let v = Vote { hash: digs[h].clone(), round, author: keys[a].0, signature: sig };
+                ops.push(format!("AVote (mkVote (DOther {}) {} {} (SigJunk {}))", h + 1, round, aid, i));
+                human.push(format!("vote h{} r{} by {}", h + 1, round, aid));
+                match agg.add_vote(v) {
+                    Ok(None) => res.push("ANone".into()),
+                    Ok(Some(qc)) => { made += 1; let hn = digs.iter().position(|d| d == &qc.hash).unwrap() + 1;
+                        let vs: Vec<String> = qc.votes.iter().map(|(pk, s)| format!("({}, SigJunk {})", keys.iter().position(|kk| &kk.0 == pk).map(|p| if p == n { 99 } else { p }).unwrap(), sigtab[&bincode::serialize(s).unwrap()])).collect();
+                        res.push(format!("AQC (mkQC (DOther {}) {} {})", hn, qc.round, coq_list(&vs))) }
+                    Err(_) => res.push("AErr".into()),
+                }
+            } else if x < 0.9 {
+                let round = rng.gen_range(1, 4u64); let hq = rng.gen_range(0, 3u64);
+                let t = Timeout { high_qc: QC { hash: Digest::default(), round: hq, votes: vec![] }, round, author: keys[a].0, signature: sig };
+                ops.push(format!("ATimeout (mkTimeout (mkQC DZero {} []) {} {} (SigJunk {}))", hq, round, aid, i));
+                human.push(format!("timeout r{} hq{} by {}", round, hq, aid));
+                match agg.add_timeout(t) {
+                    Ok(None) => res.push("ANone".into()),
+                    Ok(Some(tc)) => { made += 1;
+                        let vs: Vec<String> = tc.votes.iter().map(|(pk, s, r)| format!("({}, SigJunk {}, {})", keys.iter().position(|kk| &kk.0 == pk).map(|p| if p == n { 99 } else { p }).unwrap(), sigtab[&bincode::serialize(s).unwrap()], r)).collect();
+                        res.push(format!("ATC (mkTC {} {})", tc.round, coq_list(&vs))) }
+                    Err(_) => res.push("AErr".into()),
+                }
+            } else {
+                let r = rng.gen_range(1, 4u64);
+                agg.cleanup(&r); ops.push(format!("ACleanup {}", r)); res.push("ANone".into()); human.push(format!("cleanup {}", r));
+            }
+        }
+        e.stat(&format!("n={}", n), 1); e.stat("certificates", made);
+        if made > 0 && seen.insert(ops.join(";")) { e.stat("distinct_nontrivial", 1); }
+        let st: Vec<String> = (0..n).map(|i| format!("({},{})", i, stakes[i])).collect();
+        e.case(k, "", &format!("agg_case (mkCommittee {}) {} {}", coq_list(&st), coq_list(&ops), coq_list(&res)), json!({"case": k, "stakes": stakes, "ops": human}));
+    }
+    e.finish(&o.out, "aggregator", o.seed);
+}
+
+// ---------------------------------------------------------------- C11: BatchMaker + Processor
+async fn settle() { for _ in 0..64 { tokio::task::yield_now().await; } }
+// a fresh runtime per case: when it is dropped every task of the case is gone (no leftovers firing on the next case's clock or tap)
+fn fresh_rt() -> tokio::runtime::Runtime { tokio::runtime::Builder::new_current_thread().enable_all().start_paused(true).build().unwrap() }
+fn batchmaker(o: &Opts) {
+    use mempool::verif::{BatchMaker, MempoolMessage, Processor, QuorumWaiterMessage};
+    use sha2::{Digest as _, Sha512};
+    let bench = cfg!(feature = "bench");
+    let mut e = Emit::new("Guards BatchMakerDefs CorrComp CorrBatch");
+    let mut seen = std::collections::HashSet::new();
+    std::panic::set_hook(Box::new(|_| {}));
+    for k in 0..o.cases {
+        if let Some(only) = o.only { if only != k { continue; } }
+        let rt = fresh_rt();
+        let mut rng = case_rng(o.seed, 11, k as u64);
+        let batch_size: usize = match k % 5 { 0 => 1, 1 => rng.gen_range(2, 10), 2 => 100, _ => rng.gen_range(10, 60) };
+        let delay: u64 = 100;
+        // events: Some(tx) | None = the batch timer fires
+        let nev = rng.gen_range(1, 25);
+        let mut evs: Vec<Option<Vec<u8>>> = vec![];
+        for _ in 0..nev {
+            if rng.gen_bool(0.25) { evs.push(None); continue; }
+            let len = match rng.gen_range(0, 10) { 0 => 0, 1 => 1, 2 => batch_size.saturating_sub(1), 3 => batch_size, 4 => batch_size + 1, 5 => 9, _ => rng.gen_range(0, 2 * batch_size + 2) };
+            let mut tx: Vec<u8> = (0..len).map(|_| rng.gen()).collect();
+            if len > 0 && rng.gen_bool(0.3) { tx[0] = 0; }  // "sample" transactions of the benchmark build start with 0
+            evs.push(Some(tx));
+        }
+        let dbpath = format!("{}/db_bm_{}_{}", o.out, o.seed, k);
+        let _ = std::fs::remove_dir_all(&dbpath);
+        let (sealed, stored_ok, digests_ok, panicked, net_ok) = rt.block_on(async {
+            network::verif::tap_start();
+            let store = store::Store::new(&dbpath).unwrap();
+            let (tx_tx, rx_tx) = tokio::sync::mpsc::channel(1000);
+            let (tx_msg, mut rx_msg) = tokio::sync::mpsc::channel::<QuorumWaiterMessage>(1000);
+            let (tx_batch, rx_batch) = tokio::sync::mpsc::channel(1000);
+            let (tx_dig, mut rx_dig) = tokio::sync::mpsc::channel(1000);
+            let peers = sorted_keys(&mut rng, 2);
+            BatchMaker::spawn(batch_size, delay, rx_tx, tx_msg, vec![(peers[0].0, addr(1)), (peers[1].0, addr(2))]);
+            Processor::spawn(store.clone(), rx_batch, tx_dig);
+            settle().await;
+            let mut sealed: Vec<Vec<String>> = vec![]; let mut stored_ok = true; let mut digests_ok = true; let mut panicked = false; let mut net_ok = true;
+            let mut st = store.clone();
+            for ev in &evs {
+                match ev {
+                    Some(tx) => { if tx_tx.send(tx.clone()).await.is_err() { panicked = true; } }
+                    None => { tokio::time::advance(std::time::Duration::from_millis(delay)).await; }
+                }
+                settle().await;
+                let mut out_now: Vec<String> = vec![];
+                while let Ok(m) = rx_msg.try_recv() {
+                    // the sealed batch as broadcast and as handed on: its exact serialized bytes
+                    let taps = network::verif::tap_drain();
+                    if taps.len() != 2 || taps.iter().any(|(rel, _, b)| !*rel || b[..] != m.batch[..]) { net_ok = false; if std::env::var("HSDBG").is_ok() { eprintln!("taps {:?}", taps.iter().map(|(r,a,b)| (*r,*a,b.len())).collect::<Vec<_>>()); } }
+                    match bincode::deserialize::<MempoolMessage>(&m.batch) { Ok(MempoolMessage::Batch(b)) => out_now.push(coq_list(&b.iter().map(|t| coq_bytes(t)).collect::<Vec<_>>())), _ => { out_now.push("[]".into()); } }
+                    // Processor: stored and announced under the hash of exactly these bytes
+                    let expect = Sha512::digest(&m.batch)[..32].to_vec();
+                    tx_batch.send(m.batch.clone()).await.unwrap(); settle().await;
+                    match rx_dig.try_recv() { Ok(d) => if d.0.to_vec() != expect { digests_ok = false; }, Err(_) => digests_ok = false }
+                    match st.read(expect.clone()).await { Ok(Some(v)) => if v != m.batch { stored_ok = false; }, _ => stored_ok = false }
+                }
+                if tx_tx.is_closed() { panicked = true; }
+                sealed.push(out_now);
+                if panicked { break; }
+            }
+            (sealed, stored_ok, digests_ok, panicked, net_ok)
+        });
+        let _ = std::fs::remove_dir_all(&dbpath);
+        let evt: Vec<String> = evs.iter().map(|x| match x { Some(t) => format!("BTx {}", coq_bytes(t)), None => "BTimer".into() }).collect();
+        let obs: Vec<String> = sealed.iter().map(|bs| coq_list(bs)).collect();
+        e.stat(&format!("batch_size={}", if batch_size == 1 { "1" } else if batch_size < 10 { "2-9" } else { "10+" }), 1);
+        e.stat("sealed", sealed.iter().map(|x| x.len() as u64).sum());
+        if evs.iter().any(|x| matches!(x, Some(t) if t.is_empty())) { e.stat("has_empty_tx", 1); }
+        if panicked { e.stat("impl_panicked", 1); }
+        if sealed.iter().any(|x| !x.is_empty()) && seen.insert(evt.join(";")) { e.stat("distinct_nontrivial", 1); }
+        e.case(k, "", &format!("batch_case {} {} {} {} {} {}", if bench { "true" } else { "false" }, batch_size, coq_list(&evt), coq_list(&obs), if panicked { "true" } else { "false" },
+               coq_list(&[stored_ok, digests_ok, net_ok].iter().map(|b| if *b { "true" } else { "false" }).collect::<Vec<_>>())),
+               json!({"case": k, "bench": bench, "batch_size": batch_size, "events": evs.iter().map(|x| match x { Some(t) => format!("tx {}", hex(t)), None => "timer".into() }).collect::<Vec<_>>(), "impl_panicked": panicked, "empty_tx": evs.iter().any(|x| matches!(x, Some(t) if t.is_empty()))}));
+    }
+    e.finish(&o.out, "batchmaker", o.seed);
+}
+
+// ---------------------------------------------------------------- C12: QuorumWaiter
+fn quorumwaiter(o: &Opts) {
+    use mempool::verif::{QuorumWaiter, QuorumWaiterMessage};
+    let mut e = Emit::new("Guards QuorumWaiterDefs CorrComp CorrQW");
+    let mut seen = std::collections::HashSet::new();
+    std::panic::set_hook(Box::new(|_| {}));
+    for k in 0..o.cases {
+        if let Some(only) = o.only { if only != k { continue; } }
+        let rt = fresh_rt();
+        let mut rng = case_rng(o.seed, 12, k as u64);
+        let n = rng.gen_range(1, 9usize);
+        let stakes: Vec<u32> = if k % 2 == 0 { vec![1; n] } else { (0..n).map(|_| rng.gen_range(0, 6)).collect() };
+        let stakes: Vec<u32> = if stakes.iter().all(|&x| x == 0) { vec![1; n] } else { stakes };
+        let keys = sorted_keys(&mut rng, n + 1);
+        let com = mempool::Committee::new((0..n).map(|i| (keys[i].0, stakes[i], addr(i), addr(100 + i))).collect(), 1);
+        let me = rng.gen_range(0, n);
+        let nb = rng.gen_range(1, 4);
+        // per batch: the order in which peers acknowledge (a permutation of a subset of the others, plus possibly an unknown peer)
+        let mut batches: Vec<Vec<usize>> = vec![];
+        for _ in 0..nb {
+            let mut others: Vec<usize> = (0..n).filter(|&i| i != me).collect();
+            use rand::seq::SliceRandom; others.shuffle(&mut rng);
+            if rng.gen_bool(0.2) { others.insert(rng.gen_range(0, others.len() + 1), n); } // unknown authority: stake 0
+            batches.push(others);
+        }
+        let observed: Vec<Option<usize>> = rt.block_on(async {
+            let (tx_msg, rx_msg) = tokio::sync::mpsc::channel(100);
+            let (tx_batch, mut rx_batch) = tokio::sync::mpsc::channel::<Vec<u8>>(100);
+            QuorumWaiter::spawn(com.clone(), stakes[me], rx_msg, tx_batch);
+            let mut obs = vec![];
+            for (bi, order) in batches.iter().enumerate() {
+                let mut senders = vec![]; let mut handlers = vec![];
+                for &p in order { let (s, r) = tokio::sync::oneshot::channel::<bytes::Bytes>(); senders.push(Some(s)); handlers.push((keys[p].0, r)); }
+                // hand the handlers over in a shuffled order: only the acknowledgement order may matter
+                let mut idx: Vec<usize> = (0..handlers.len()).collect(); use rand::seq::SliceRandom; idx.shuffle(&mut rng);
+                let mut hs: Vec<Option<(crypto::PublicKey, network::CancelHandler)>> = handlers.into_iter().map(Some).collect();
+                let shuffled: Vec<(crypto::PublicKey, network::CancelHandler)> = idx.iter().map(|&i| hs[i].take().unwrap()).collect();
+                tx_msg.send(QuorumWaiterMessage { batch: vec![bi as u8], handlers: shuffled }).await.unwrap();
+                settle().await;
+                let mut at: Option<usize> = None;
+                if rx_batch.try_recv().is_ok() { at = Some(usize::MAX); } // forwarded before any acknowledgement
+                for (j, s) in senders.iter_mut().enumerate() {
+                    let _ = s.take().unwrap().send(bytes::Bytes::from("Ack"));
+                    settle().await;
+                    if let Ok(b) = rx_batch.try_recv() { if at.is_none() && b == vec![bi as u8] { at = Some(j); } else { at = Some(usize::MAX - 1); } }
+                }
+                obs.push(at);
+            }
+            obs
+        });
+        e.stat(&format!("n={}", n), 1);
+        let forwarded = observed.iter().filter(|x| x.is_some()).count();
+        e.stat("forwarded", forwarded as u64); e.stat("never_forwarded", (observed.len() - forwarded) as u64);
+        let st: Vec<String> = (0..n).map(|i| format!("({},{})", i, stakes[i])).collect();
+        let bl: Vec<String> = batches.iter().map(|o| coq_nlist(o.iter().map(|&p| if p == n { 99u128 } else { p as u128 }))).collect();
+        let ol: Vec<String> = observed.iter().map(|x| match x { Some(j) if *j >= usize::MAX - 1 => "Some 999999".into(), Some(j) => format!("Some {}", j), None => "None".into() }).collect();
+        if n > 1 && seen.insert(format!("{:?}{:?}", stakes, batches)) { e.stat("distinct_nontrivial", 1); }
+        e.case(k, "", &format!("qw_case {} {} {} {}", coq_list(&st), me, coq_list(&bl), coq_list(&ol)), json!({"case": k, "stakes": stakes, "me": me, "ack_orders": batches, "forwarded_at": observed.iter().map(|x| x.map(|j| j as i64)).collect::<Vec<_>>() }));
+    }
+    e.finish(&o.out, "quorumwaiter", o.seed);
+}
+
+// ---------------------------------------------------------------- C16: Store
+fn store_mode(o: &Opts) {
+    use std::cell::RefCell; use std::rc::Rc;
+    let mut e = Emit::new("StoreDefs CorrComp CorrStore");
+    let mut seen = std::collections::HashSet::new();
+    for k in 0..o.cases {
+        if let Some(only) = o.only { if only != k { continue; } }
+        let rt = fresh_rt();
+        let mut rng = case_rng(o.seed, 16, k as u64);
+        let nkeys = rng.gen_range(1, 5u64);
+        let ncmd = rng.gen_range(3, 40);
+        let path = format!("{}/db_store_{}_{}", o.out, o.seed, k);
+        let _ = std::fs::remove_dir_all(&path);
+        let local = tokio::task::LocalSet::new();
+        let (cmds, outs): (Vec<String>, Vec<String>) = local.block_on(&rt, async {
+            let mut handles: Vec<store::Store> = vec![];
+            let s0 = store::Store::new(&path).unwrap();
+            for _ in 0..3 { handles.push(s0.clone()); }
+            drop(s0);
+            let done: Rc<RefCell<Vec<String>>> = Rc::new(RefCell::new(vec![]));
+            let mut tasks: Vec<tokio::task::JoinHandle<()>> = vec![];
+            let mut cmds = vec![]; let mut outs = vec![];
+            for id in 0..ncmd {
+                let key = rng.gen_range(0, nkeys); let kb = vec![key as u8, 7, 7];
+                let h = rng.gen_range(0, handles.len());
+                let x: f64 = rng.gen();
+                if x < 0.35 {
+                    let v = rng.gen_range(0, 200u64);
+                    handles[h].write(kb, vec![v as u8]).await; cmds.push(format!("Write {} {}", key, v));
+                } else if x < 0.6 {
+                    let r = handles[h].read(kb).await.unwrap(); cmds.push(format!("Read {} {}", key, id));
+                    done.borrow_mut().push(format!("ORead {} {}", id, match r { Some(v) => format!("(Some {})", v[0]), None => "None".into() }));
+                } else if x < 0.93 {
+                    let mut st = handles[h].clone(); let d = done.clone();
+                    tasks.push(tokio::task::spawn_local(async move { if let Ok(v) = st.notify_read(kb).await { d.borrow_mut().push(format!("ONotify {} {}", id, v[0])); } }));
+                    cmds.push(format!("NotifyRead {} {}", key, id));
+                } else {
+                    // drop every handle and pending waiter, reopen the database
+                    for t in tasks.drain(..) { t.abort(); }
+                    handles.clear(); settle().await; settle().await;
+                    let mut s1 = None;
+                    for _ in 0..200 { match store::Store::new(&path) { Ok(s) => { s1 = Some(s); break; } Err(_) => { settle().await; std::thread::sleep(std::time::Duration::from_millis(5)); } } }
+                    let s1 = s1.expect("reopen");
+                    for _ in 0..3 { handles.push(s1.clone()); }
+                    cmds.push("Reopen".into());
+                }
+                settle().await;
+                outs.push(coq_list(&done.borrow_mut().drain(..).collect::<Vec<_>>()));
+            }
+            for t in tasks.drain(..) { t.abort(); }
+            handles.clear(); settle().await;
+            (cmds, outs)
+        });
+        let _ = std::fs::remove_dir_all(&path);
+        e.stat("commands", cmds.len() as u64);
+        for c in &cmds { e.stat(&format!("cmd:{}", c.split(' ').next().unwrap()), 1); }
+        if cmds.iter().any(|c| c.starts_with("NotifyRead")) && seen.insert(cmds.join(";")) { e.stat("distinct_nontrivial", 1); }
+        e.case(k, "", &format!("store_case {} {}", coq_list(&cmds), coq_list(&outs)), json!({"case": k, "commands": cmds}));
+    }
+    e.finish(&o.out, "store", o.seed);
+}
+
 fn main() {
     let o = opts();
     match o.mode.as_str() {
         "quorum" => quorum(&o),
+        "leader" => leader(&o),
+        "aggregator" => aggregator(&o),
+        "batchmaker" => batchmaker(&o),
+        "quorumwaiter" => quorumwaiter(&o),
+        "store" => store_mode(&o),
         m => { eprintln!("unknown mode {}", m); std::process::exit(2); }
     }
 }
